@@ -27,6 +27,106 @@ func init() {
 		Rule{Name: "C16-R11-int-to-float-exact", Doc: "a 64-bit integer argument becomes a float element only when |v| ≤ 2^53 was established (every such integer is exactly representable), and ±2^53 themselves are still accepted: an integer outside that range yields an error instead of a silently rounded value", Run: c16IntToFloatExact})
 }
 
+func init() {
+	registry["C16"].Rules = append(registry["C16"].Rules,
+		Rule{Name: "C16-R13-numeric-string-errors", Doc: "a numeric string that does not parse yields an error and stores nothing unless the parse error is strconv's range error — only then is the (saturated) parse result clamped and stored: garbage text is never turned into a bound, and an out-of-range literal is clamped like any other out-of-range argument", Run: c16NumericStringErrors})
+}
+
+func c16NumericStringErrors(r *Run) {
+	const rule = "C16-R13-numeric-string-errors"
+	w := r.W
+	n := 0
+	for _, name := range []string{"IntItem.combineIntValuesSlow", "UintItem.combineUintValuesSlow"} {
+		fn := w.Fn("secs2", name)
+		r.Analysed(w.FnName(fn))
+		paths, ok := enumPaths(fn, 50000)
+		if !ok {
+			r.Undecided(rule, name+" paths", fn.Pos(), "too many")
+			continue
+		}
+		for _, p := range paths {
+			ret, isRet := p.Exit.(*ssa.Return)
+			if !isRet {
+				continue
+			}
+			var parse *ssa.Call
+			nParse := 0
+			for _, in := range p.Instrs() {
+				if c, ok := in.(*ssa.Call); ok {
+					if g := calleeOf(c).Static; g != nil && fnPkgPath(g) == "strconv" && strings.HasPrefix(g.Name(), "Parse") {
+						parse = c
+						nParse++
+					}
+				}
+			}
+			if parse == nil || nParse != 1 {
+				continue
+			}
+			errNonNil, asOK, isRange := 0, 0, 0
+			for _, f := range p.Conds {
+				if x, eq, ok := isNilCmp(f.Cond); ok {
+					if ex, ok := x.(*ssa.Extract); ok && ex.Tuple == ssa.Value(parse) && ex.Index == 1 {
+						if eq != f.Val {
+							errNonNil = 1
+						} else {
+							errNonNil = -1
+						}
+					}
+				}
+				if c, ok := f.Cond.(*ssa.Call); ok {
+					if g := calleeOf(c).Static; g != nil && fnPkgPath(g) == "errors" {
+						v := -1
+						if f.Val {
+							v = 1
+						}
+						switch g.Name() {
+						case "As":
+							asOK = v
+						case "Is":
+							// the target must be strconv.ErrRange
+							if strings.Contains(render(c.Call.Args[1]), "ErrRange") {
+								isRange = v
+							} else {
+								isRange = -2
+							}
+						}
+					}
+				}
+			}
+			// what happens after the parse
+			appends := 0
+			after := false
+			for _, in := range p.Instrs() {
+				if in == ssa.Instruction(parse) {
+					after = true
+				}
+				if !after {
+					continue
+				}
+				if st, ok := in.(*ssa.Store); ok {
+					if c, ok := st.Val.(*ssa.Call); ok && calleeOf(c).Builtin == "append" {
+						appends++
+					}
+				}
+			}
+			failed := len(ret.Results) > 0 && !isNilConst(p.Resolve(ret.Results[len(ret.Results)-1]))
+			n++
+			construct := fmt.Sprintf("%s: numeric string [%s]", name, shortCond(p))
+			switch {
+			case errNonNil == -1:
+				r.Check(appends == 1 && !failed, rule, construct+": parsed → one element", ret.Pos(), "stored", fmt.Sprintf("a string that parsed must contribute exactly one element (appends=%d, error=%v)", appends, failed))
+			case errNonNil == 1 && asOK == 1 && isRange == 1:
+				r.Check(appends == 1 && !failed, rule, construct+": out of range → clamped and stored", ret.Pos(), "stored", fmt.Sprintf("an out-of-range literal must be clamped like any other out-of-range argument (appends=%d, error=%v)", appends, failed))
+			case errNonNil == 1:
+				r.Check(appends == 0 && failed, rule, construct+": unparsable → error, nothing stored", ret.Pos(), "error", fmt.Sprintf("a parse failure that is not strconv's range error must be reported and store nothing (errors.As=%d errors.Is(ErrRange)=%d appends=%d error=%v)", asOK, isRange, appends, failed))
+			default:
+				r.Fail(rule, construct, ret.Pos(), "the outcome of the parse is not decided before its result is used")
+			}
+		}
+	}
+	r.Floor(rule, "numeric-string paths", n, 6)
+}
+
 func c16IntToFloatExact(r *Run) {
 	const rule = "C16-R11-int-to-float-exact"
 	w := r.W
